@@ -2727,8 +2727,11 @@ class TLSConnection(TLSRecordLayer):
                     getattr(CertificateCompressionAlgorithm, algo) for algo
                     in settings.certificate_compression_receive
                 ]
-                extensions.append(CompressedCertificateExtension().create(
-                    algos_numbers))
+                # an empty algorithm list is a decode error for the peer
+                if algos_numbers:
+                    extensions.append(
+                        CompressedCertificateExtension().create(
+                            algos_numbers))
 
         certificate_request.create(context=context, sig_algs=valid_sig_algs,
                                    extensions=extensions)
@@ -3150,9 +3153,12 @@ class TLSConnection(TLSRecordLayer):
                         getattr(CertificateCompressionAlgorithm, algo) for algo
                         in settings.certificate_compression_receive
                     ]
-                    cert_req_comp_cert_ext = CompressedCertificateExtension()\
-                        .create(algos_numbers)
-                    extensions.append(cert_req_comp_cert_ext)
+                    # an empty algorithm list is a decode error for the peer
+                    if algos_numbers:
+                        cert_req_comp_cert_ext = \
+                            CompressedCertificateExtension()\
+                            .create(algos_numbers)
+                        extensions.append(cert_req_comp_cert_ext)
 
                 certificate_request = CertificateRequest(self.version)
                 certificate_request.create(
